@@ -4,6 +4,7 @@ package core
 import (
 	"fmt"
 	"go/ast"
+	"go/constant"
 	"go/token"
 	"go/types"
 	"os"
@@ -65,6 +66,14 @@ func Load(repo string) (*Prog, error) {
 	})
 	if len(errs) > 0 {
 		return nil, fmt.Errorf("load: %d type/parse errors, first: %s", len(errs), errs[0])
+	}
+	// go/ssa keeps `if <constant> { … }` as a real branch; statements guarded by a false constant (`const debug = false`)
+	// are dead in every execution, so they are removed from the syntax before the SSA form (and the twin normal forms)
+	// are built
+	for _, pk := range pkgs {
+		if strings.HasPrefix(pk.PkgPath, ModPath) && pk.TypesInfo != nil {
+			pruneConstIfs(pk.TypesInfo, pk.Syntax)
+		}
 	}
 	prog, _ := ssautil.AllPackages(pkgs, ssa.BuilderMode(0))
 	prog.Build()
@@ -322,4 +331,55 @@ func (p *Prog) TypesInfo(f *ssa.Function) *types.Info {
 		}
 	}
 	return nil
+}
+
+
+// pruneConstIfs replaces every `if c { A } else { B }` whose condition is a boolean constant by its live branch.
+func pruneConstIfs(info *types.Info, files []*ast.File) {
+	var simplify func(s ast.Stmt) ast.Stmt
+	simplify = func(s ast.Stmt) ast.Stmt {
+		for i := 0; i < 8; i++ {
+			ifs, ok := s.(*ast.IfStmt)
+			if !ok || ifs.Init != nil {
+				return s
+			}
+			tv, ok := info.Types[ifs.Cond]
+			if !ok || tv.Value == nil || tv.Value.Kind() != constant.Bool {
+				return s
+			}
+			switch {
+			case constant.BoolVal(tv.Value):
+				s = ifs.Body
+			case ifs.Else != nil:
+				s = ifs.Else
+			default:
+				return &ast.EmptyStmt{Semicolon: ifs.Pos(), Implicit: true}
+			}
+		}
+		return s
+	}
+	fix := func(list []ast.Stmt) {
+		for i, s := range list {
+			list[i] = simplify(s)
+		}
+	}
+	for _, f := range files {
+		ast.Inspect(f, func(n ast.Node) bool {
+			switch x := n.(type) {
+			case *ast.BlockStmt:
+				fix(x.List)
+			case *ast.CaseClause:
+				fix(x.Body)
+			case *ast.CommClause:
+				fix(x.Body)
+			case *ast.IfStmt:
+				if x.Else != nil {
+					x.Else = simplify(x.Else)
+				}
+			case *ast.LabeledStmt:
+				x.Stmt = simplify(x.Stmt)
+			}
+			return true
+		})
+	}
 }
